@@ -23,14 +23,13 @@ Definition descr (r : reg) (id : N) : option desc :=
   end.
 
 (* the finite map holding f(b), f(b+1), ..., f(b+n-1) *)
+Definition opt_put {K V} (cmp : K -> K -> comparison) (o : option (K * V)) (m : list (K * V)) : list (K * V) :=
+  match o with Some (k, v) => fput cmp k v m | None => m end.
+
 Fixpoint tab {K V} (cmp : K -> K -> comparison) (f : N -> option (K * V)) (b : N) (n : nat) : list (K * V) :=
   match n with
   | O => []
-  | S n =>
-    match f b with
-    | Some (k, v) => fput cmp k v (tab cmp f (b + 1) n)
-    | None => tab cmp f (b + 1) n
-    end
+  | S n => opt_put cmp (f b) (tab cmp f (b + 1) n)
   end.
 
 (* all ids of types.h: 0 .. g_ValueMax *)
